@@ -958,6 +958,15 @@ func (w *c08Worker) runLine(in *c08Input) *c08Outcome {
 			reply = l
 			out.Answered = true
 		case err == errC08Timeout:
+			// A reply that is merely late (a loaded machine: `work cancel` waits for a runner process to exit)
+			// is not a verdict: wait much longer, and only a request that stays unanswered is judged.
+			if l2, err2 := s.line(120 * time.Second); err2 == nil {
+				_ = l2
+				w.dropSession()
+				out.Status, out.Detail = "inconclusive", fmt.Sprintf("the reply arrived only after more than %v", total)
+				return out
+			}
+			total += 120 * time.Second
 			w.dropSession()
 			out.Detail = fmt.Sprintf("no reply line within %v (other sessions are served)", total)
 			if len(payload) > 1<<16 {
